@@ -76,6 +76,9 @@ def run(chk):
         evs = [e for e in o.m.events if e[0] == 'zip_for_each'] if o.kind == 'ok' else []
         ok = len(evs) == 1 and any(k == 'target' for k, _ in evs[0][1]) and any(k == 'lanes' and (lbl.startswith('y[') or lbl.startswith('z[')) for k, lbl in evs[0][1])
         n3 += 1
+        olds = [a for w in o.m.writes for a in w[1].atoms() if a.endswith('.old')] if o.kind == 'ok' else []
+        chk.ob('R14.3', "%s: the value written does not depend on what the target held before (it is overwritten, not accumulated into)" % name, not olds,
+               lib.body({'Linear': LIN, 'CubicSpline': SPL, 'Bilinear': BIL}[name])['span'], 'strategy-overwrites-' + name)
         chk.ob('R14.3', "%s: the target is an operand of the one Zip that also holds data lanes (%s) and is assigned once per lane (%d writes)" %
                (name, evs[0][1] if evs else o.exc, len(o.m.writes)), ok and len(o.m.writes) == 1,
                lib.body({'Linear': LIN, 'CubicSpline': SPL, 'Bilinear': BIL}[name])['span'], 'strategy-zip-' + name)
